@@ -52,16 +52,18 @@ def huge_case(rng):
     return {"dense": dense, "commons": commons, "shape": None, "extents": extents, "huge": True}
 
 
-def sparse_case(rng):
-    """Indexes of 2^28..2^31 rows given by a handful of explicit cells (no dense twin is ever built).
+def sparse_case(rng, n=None, extras=None):
+    """Indexes of 2^28..2^32 rows given by a handful of explicit cells (no dense twin is ever built).
     With three or more sub-cubes and rows x sub-cubes >= 2^30 the cube engages its worker pool on its
-    own, so this is also the only place where the un-forced pooled path of the index cube runs."""
-    n = int(gen.pick(rng, [2 ** 28 + 1, 2 ** 29, 2 ** 29 + 3, 2 ** 30, 2 ** 31 + 5, 2 ** 32 - 3, 2 ** 32]))
-    ndims = int(rng.integers(1, 4))
+    own, so this is also the only place where the un-forced pooled path of the index cube runs.
+    extras: the extra-axis extents of each dimension (a list of tuples), else drawn."""
+    if n is None:
+        n = int(gen.pick(rng, [2 ** 28 + 1, 2 ** 29, 2 ** 29 + 3, 2 ** 30, 2 ** 31 + 5, 2 ** 32 - 3, 2 ** 32]))
+    ndims = int(rng.integers(1, 4)) if extras is None else len(extras)
     dims = []
     for d in range(ndims):
         ext = int(rng.integers(2, 5))
-        extra = tuple(int(rng.integers(2, 7)) for _ in range(int(gen.pick(rng, [0, 1, 1, 2]))))
+        extra = tuple(int(rng.integers(2, 7)) for _ in range(int(gen.pick(rng, [0, 1, 1, 2])))) if extras is None else tuple(extras[d])
         common = int(rng.integers(0, ext))
         cells = {}
         for _ in range(int(rng.integers(0, 25))):
